@@ -110,6 +110,60 @@ def _table_dispatchers(ctx, already):
     return found
 
 
+def _mime_table_decisions(ctx, mfn):
+    """(decisions, default) when detect_mime_type searches a constant table whose rows pair a suffix rule (one suffix, or a list of
+    extensions) with a media type, and falls back to a constant"""
+    F = ctx.F
+    from .c14 import items_mentioned
+    fi = ctx.inl(mfn)
+    line = mfn.span["line"]
+
+    def strings(v):
+        if isinstance(v, str):
+            return [v]
+        if isinstance(v, dict) and isinstance(v.get("fields"), dict):
+            out = []
+            for k in sorted(v["fields"], key=lambda x: int(x) if str(x).isdigit() else 0):
+                out += strings(v["fields"][k])
+            return out
+        return []
+    for item in sorted(items_mentioned(F, fi)):
+        c = F.consts.get(item) or {}
+        rows = (c.get("v") or {}).get("fields") if isinstance(c.get("v"), dict) else None
+        if not isinstance(rows, dict) or len(rows) < 10:
+            continue
+        decisions = []
+        for k in sorted(rows, key=lambda x: int(x) if str(x).isdigit() else 0):
+            f = (rows[k] or {}).get("fields") if isinstance(rows[k], dict) else None
+            if not isinstance(f, dict) or len(f) != 2:
+                decisions = None
+                break
+            tys = [v for v in f.values() if isinstance(v, str) and "/" in v and not v.startswith(".")]
+            rules = [v for v in f.values() if not (isinstance(v, str) and "/" in v and not v.startswith("."))]
+            if len(tys) != 1 or len(rules) != 1:
+                decisions = None
+                break
+            sufs = strings(rules[0])
+            variant = rules[0].get("variant", "") if isinstance(rules[0], dict) else ""
+            if not sufs:
+                decisions = None
+                break
+            kind = "ends_with" if (isinstance(rules[0], str) or "end" in variant.lower() or "suffix" in variant.lower()) else "extension-list"
+            decisions.append((kind, sufs, tys[0], (c.get("span") or {}).get("line", line)))
+        if not decisions:
+            continue
+        # the fall-back: `.unwrap_or(CONST.to_string())` / `unwrap_or_else(|| CONST.to_string())` of the search
+        du = du_of(fi)
+        default = None
+        for _, t in fi.calls():
+            if (callee_name(t) or "").endswith(("::unwrap_or", "::map_or")) and len(t["args"]) >= 2:
+                d = const_str(du.val_operand(t["args"][1]))
+                if d:
+                    default = d
+        return decisions, default
+    return None
+
+
 def mime_decisions(F, fn):
     """ordered list of (kind, [suffixes], media_type, line) along the false-edge chain of detect_mime_type, and the default"""
     cfg = cfg_of(fn)
@@ -391,6 +445,11 @@ def run(ctx):
         for n in impure:
             r3.violate("C02|R3|impure|%s" % n, "detect_mime_type reaches %s: the media type would no longer depend on the extension only" % n, mfn.file, mfn.span["line"], mfn.def_)
         decisions, default = mime_decisions(F, mfn)
+        if not decisions:
+            # the chain written as an ordered constant table of (rule, media type) rows searched top to bottom
+            tdec = _mime_table_decisions(ctx, mfn)
+            if tdec is not None:
+                decisions, default = tdec
         ok = default == "application/octet-stream"
         r3.instance({"default": default}, ok)
         if not ok:
@@ -440,6 +499,34 @@ def run(ctx):
                 continue
             r3.instance({"suffix": const_, "test": how, "type": ty}, False)
             r3.violate("C02|R3|%s|not-a-suffix-test" % const_, "detect_mime_type decides on %r with %s instead of ends_with: the media type (%s) no longer follows the extension" % (const_, how, ty), mfn.file, line, mfn.def_)
+
+    # ---- R3e the extension is what follows the LAST dot
+    r3e = chk.rule("R3e-extension-after-the-last-dot", "the helper that hands detect_mime_type the extension of a name finds the dot from the right (Path::extension, rsplit_once, rfind, rsplit): a first-dot split gives 'min.js' for 'jquery.min.js' and the file falls through to the default type", floor=0)
+    if mfn is not None:
+        mi_ = ctx.inl(mfn)
+        helpers_ = [F.fns[callee_name(t)] for _, t in mi_.calls() if callee_name(t) in F.fns and F.fns[callee_name(t)].crate == "rws"
+                    and "extension" in callee_name(t).rsplit("::", 1)[-1]]
+        for hf in {h.def_: h for h in helpers_}.values():
+            hi = ctx.inl(hf)
+            hdu = du_of(hi)
+            first_dot = []
+            for _, t in hi.calls():
+                m_ = re.search(r"impl str>::(split_once|find|splitn|split|split_terminator|match_indices)$", callee_name(t) or "")
+                if not m_ or len(t["args"]) < 2:
+                    continue
+                pat = hdu.val_operand(t["args"][-1])
+                is_dot = pat[0] == "const" and (pat[1] == "." or (isinstance(pat[1], dict) and pat[1].get("char") == "."))
+                if not is_dot:
+                    continue
+                # `name.split('.').last()` / `.next_back()` still takes the last piece
+                takes_last = any(re.search(r"::(last|next_back|rev)$", callee_name(t2) or "") for _, t2 in hi.calls())
+                if m_.group(1) in ("split", "split_terminator", "match_indices") and takes_last:
+                    continue
+                first_dot.append((m_.group(1), t["span"]["line"]))
+            ok = not first_dot
+            r3e.instance({"helper": hf.def_, "first_dot_operations": [x[0] for x in first_dot]}, ok)
+            if not ok:
+                r3e.violate("C02|R3e|%s" % hf.def_, "%s cuts the name at the FIRST dot (%s): for a name with two dots the extension is wrong and the media type falls back to the default" % (hf.def_, first_dot[0][0]), hf.file, first_dot[0][1], hf.def_)
 
     # ---- R4 no directory listing
     r4 = chk.rule("R4-no-directory-listing", "fs::read_dir / ReadDir is unreachable from the connection roots", floor=0)
